@@ -430,6 +430,8 @@ class Translator:
                 return ("return", st.value)
             elif isinstance(st, ast.Pass):
                 continue
+            elif isinstance(st, ast.Expr) and isinstance(st.value, ast.Call) and getattr(self, "expr_calls", False):
+                self.tr(st.value)  # an effectful call: the caller's hooks (a stateful API summary) interpret it
             else:
                 raise Unsupported(f"statement `{norm(st)[:70]}` outside the straight-line fragment")
         return None
